@@ -283,7 +283,8 @@ void tokenize_cleanup()
       {
          next = pc->GetNextNcNnl();
 
-         if (next->Is(CT_ASSIGN))
+         if (  next->Is(CT_ASSIGN)
+            && next->IsString("="))     // not '+=', '-=', ...
          {
             // Change ':' + '=' into ':='
             pc->SetType(CT_SQL_ASSIGN);
